@@ -95,6 +95,18 @@ def geomClass : BGeom → String
   | .multiLineString _ => "multilinestring" | .polygon _ => "polygon" | .multiPolygon _ => "multipolygon"
   | .collection _ => "collection" | .bounds _ _ => "bounds" | .nil => "nil"
 
+/-- Go's `<` on float64 bit patterns: the order of the values, false when either side is NaN.  `vertices`, `lenG`,
+`pointsOf` of a geometry given by bit patterns decide "this `*Bounds` has no point" with it. -/
+def bitsLtB (a b : UInt64) : Bool :=
+  match keyOfBits a, keyOfBits b with
+  | some x, some y => decide (x.val < y.val)
+  | _, _ => false
+@[instance_reducible] def bitsLT : LT UInt64 := ⟨fun a b => bitsLtB a b = true⟩
+@[instance_reducible] def bitsDecLT : @DecidableLT UInt64 bitsLT := fun a b => inferInstanceAs (Decidable (bitsLtB a b = true))
+def verticesBits (g : BGeom) : List (Pt UInt64) := @vertices UInt64 bitsLT bitsDecLT g
+def lenBits (g : BGeom) : Except Fault Nat := @lenG UInt64 bitsLT bitsDecLT g
+def pointsBits (g : BGeom) : Except Fault (List (Pt UInt64)) := @pointsOf UInt64 bitsLT bitsDecLT g
+
 /-- longest run of consecutive members without vertices, over all member lists -/
 def maxRun (emp : List Bool) : Nat :=
   (emp.foldl (fun (acc : Nat × Nat) e => if e then (max acc.1 (acc.2 + 1), acc.2 + 1) else (acc.1, 0)) (0, 0)).1
@@ -112,7 +124,7 @@ def emptyRunL : List BGeom → Nat
   | g :: gs => max (emptyRun g) (emptyRunL gs)
 def emptyFlags : List BGeom → List Bool
   | [] => []
-  | g :: gs => (vertices g).isEmpty :: emptyFlags gs
+  | g :: gs => (verticesBits g).isEmpty :: emptyFlags gs
 end
 
 
@@ -134,6 +146,11 @@ def swapL : List BGeom → List BGeom
   | g :: gs => swapG g :: swapL gs
 end
 
+/-- the envelope clause: literally (`NewBounds()` when there is no vertex) — except for a non-canonical empty
+`*Bounds` given directly as the geometry, whose `Bounds()` is that box: there as point sets (C04_bounds_sets) -/
+def envOk (gk : Geom FKey) (b : Box FKey) : Bool :=
+  if topCanon gk then isEnvelopeB (vertices gk) b else isEnvelopeSetB (vertices gk) b
+
 def showFault : Fault → String
   | .index => "index" | .nilDeref => "nilDeref" | .nilFunc => "nilFunc" | .explicit => "explicit" | .badState => "badState" | .fuel => "fuel"
 
@@ -149,7 +166,7 @@ def judgeGeom (g : BGeom) (rhs : Tok) : String :=
     let inHyp := noNil g
     let boxesOk := boxesNonEmpty gk
     let cls := cls0 ++ (if !inHyp then "-nil-outside" else if !boxesOk then "-emptybox" else "")
-    let vs := vertices g
+    let vs := verticesBits g
     -- the specification, on the implementation's answers
     let spec : Option String :=
       if !inHyp then none
@@ -168,7 +185,7 @@ def judgeGeom (g : BGeom) (rhs : Tok) : String :=
           match kbox q with
           | none => some "Bounds-NaN"
           | some b =>
-            if !isEnvelopeB (vertices gk) b then some "Bounds-is-not-the-envelope-of-the-vertices"
+            if !envOk gk b then some "Bounds-is-not-the-envelope-of-the-vertices"
             else if !a.again then some "second-Bounds-call-differs"
             else match a.hist with
             | none => none
@@ -178,15 +195,14 @@ def judgeGeom (g : BGeom) (rhs : Tok) : String :=
               match kbox q2 with
               | none => some "Bounds-NaN"
               | some b2 =>
-                if !isEnvelopeB (vertices gk) b2 then
+                if !envOk gk b2 then
                   some "Bounds-depends-on-call-history:-after-the-caller-mutated-an-earlier-result-it-is-not-the-envelope"
-                else if !boxesOk then none
                 else match a.swap with
                 | none => none
                 | some none => some "Len-panicked-after-in-place-change-of-the-coordinates"
                 | some (some (n2, ok2, ps2, b2r)) =>
                   let g2 := swapG g
-                  let vs2 := vertices g2
+                  let vs2 := verticesBits g2
                   if n2 != vs2.length then some "Len-changed-after-in-place-change-of-the-coordinates"
                   else if !ok2 then some s!"Points-panicked-after-in-place-change-of-the-coordinates"
                   else if ps2 != vs2 then some "Points-stale-after-in-place-change-of-the-coordinates"
@@ -194,7 +210,7 @@ def judgeGeom (g : BGeom) (rhs : Tok) : String :=
                   | some (some q3), some gk2 =>
                     match kbox q3 with
                     | some b3 =>
-                      if !isEnvelopeB (vertices gk2) b3 then some "Bounds-stale-after-in-place-change-of-the-coordinates-(same-address,-same-length)"
+                      if !envOk gk2 b3 then some "Bounds-stale-after-in-place-change-of-the-coordinates-(same-address,-same-length)"
                       else none
                     | none => some "Bounds-NaN"
                   | _, _ => some "Bounds-panicked-or-nil-after-in-place-change-of-the-coordinates"
@@ -202,8 +218,8 @@ def judgeGeom (g : BGeom) (rhs : Tok) : String :=
     | some why => s!"SPEC {cls} {why}"
     | none =>
       -- correspondence with the model
-      let mLen := lenG g
-      let mPts := pointsOf g
+      let mLen := lenBits g
+      let mPts := pointsBits g
       let mBnd := boundsG gk
       let dLen : Option String := match mLen, a.len with
         | .ok n, some m => if n == m then none else some s!"len model={n}"
@@ -285,7 +301,7 @@ def judgeLine (line : String) : String :=
         match geomKey g with
         | none => (none : Option String)
         | some gk =>
-          let inHyp := noNil g && boxesNonEmpty gk
+          let inHyp := noNil g
           match r with
           | none => if noNil g then some "SPEC Bounds-panicked" else none
           | some none => some "SPEC Bounds-nil"
@@ -293,7 +309,7 @@ def judgeLine (line : String) : String :=
             match kbox q with
             | none => some "SPEC Bounds-NaN"
             | some b =>
-              if inHyp && !isEnvelopeB (vertices gk) b then
+              if inHyp && !envOk gk b then
                 some s!"SPEC Bounds-of-{geomClass g}-depends-on-call-history:-not-the-envelope-of-its-vertices"
               else match boundsG gk with
                 | .ok mb => if mb == b then none else if inHyp then some "DIFF model-differs" else none
